@@ -4,6 +4,8 @@ import SJ.Proofs.WalkSafe
 import SJ.Proofs.Bridge
 import SJ.Proofs.DeleteDoc
 import SJ.Proofs.EditHistoryDelete
+import SJ.Proofs.GoIter
+import SJ.Proofs.GoSet
 /-
 C14 — Deletion removes exactly the selected members and all APIs agree after it.
 -/
@@ -18,14 +20,16 @@ theorem C14_calc_next :
 open SJ.Layout
 
 /-- **SetNull on a container**: the object or array node `[q, e)` becomes `null` followed by a gap ending exactly
-    at `e` (every skip count lands inside the gap or on the next live entry); nothing else changes. -/
+    at `e` (every skip count lands inside the gap or on the next live entry); nothing else changes.
+    `hview`: the container lies inside the iterator's view (Go checks every `i.tape.Tape[j] = …` of the fill against
+    the view length `lim` and panics at the first `j ≥ lim`; every view the API makes ends at an element boundary). -/
 theorem C14_setNull_container (pj : PJ) (v : LVal) (hok : Ok pj v) (q e : Nat) (hnode : HasNode q e v) (hqe : q + 2 ≤ e)
     (hsmall : pj.tape.size < 2^56) (i : Iter) (hoff : i.off = q + 1) (hcur : i.cur.toNat = e)
-    (ht0 : inCase (caseOf swSetNull 0) i.t = false) (ht1 : inCase (caseOf swSetNull 1) i.t = false)
+    (hview : i.cur.toNat ≤ i.lim) (ht0 : inCase (caseOf swSetNull 0) i.t = false) (ht1 : inCase (caseOf swSetNull 1) i.t = false)
     (ht : inCase (caseOf swSetNull 2) i.t = true) :
     ∃ pj' i', i.setNull pj = .ok (pj', i') ∧ Ok pj' (substV q (.null q) v) ∧
       pj'.strings = pj.strings ∧ pj'.msg = pj.msg ∧ pj'.tape.size = pj.tape.size :=
-  setNull_container_doc pj v hok q e hnode hqe hsmall i hoff hcur ht0 ht1 ht
+  setNull_container_doc pj v hok q e hnode hqe hsmall i hoff hcur hview ht0 ht1 ht
 
 /-- The NOP fill used by every deletion writes `Nop | (hi − k)` at each `k ∈ [lo, hi)` and nothing else … -/
 theorem C14_nopFill (n : Nat) (tape : Array UInt64) (lo hi : Nat) (hn : hi - lo = n) (hsz : hi ≤ tape.size) :
@@ -87,12 +91,12 @@ theorem C14_gap_skipped_neb (pj : PJ) (lim : Nat) {a b : Nat} (g : Gap pj a b) (
 theorem C14_setNull_then_read (pj : PJ) (v : LVal) (hok : Ok pj v) (htight : WalkLayout.Tight v) (q e : Nat)
     (hnode : HasNode q e v) (hqe : q + 2 ≤ e)
     (hsmall : pj.tape.size < 2^56) (i : Iter) (hoff : i.off = q + 1) (hcur : i.cur.toNat = e)
-    (ht0 : inCase (caseOf swSetNull 0) i.t = false) (ht1 : inCase (caseOf swSetNull 1) i.t = false)
+    (hview : i.cur.toNat ≤ i.lim) (ht0 : inCase (caseOf swSetNull 0) i.t = false) (ht1 : inCase (caseOf swSetNull 1) i.t = false)
     (ht : inCase (caseOf swSetNull 2) i.t = true) :
     ∃ pj' i', i.setNull pj = .ok (pj', i') ∧
       ∀ (j : Iter) (fuel : Nat), WalkLayout.OnNode pj' (substV q (.null q) v) j → 2 * (j.lim - j.off) + 2 < fuel →
         owalkValue pj' j fuel = .ok (WalkLayout.toOVal (substV q (.null q) v)) := by
-  obtain ⟨pj', i', h1, h2, _⟩ := setNull_container_doc pj v hok q e hnode hqe hsmall i hoff hcur ht0 ht1 ht
+  obtain ⟨pj', i', h1, h2, _⟩ := setNull_container_doc pj v hok q e hnode hqe hsmall i hoff hcur hview ht0 ht1 ht
   refine ⟨pj', i', h1, fun j fuel hon hf => ?_⟩
   exact WalkLayout.owalkValue_node pj' _ j fuel h2 (WalkLayout.subst_tight q (.null q) rfl (by simp [WalkLayout.Tight]) v htight) hon hf
 
@@ -202,5 +206,22 @@ theorem C14_delete_refused (pj : PJ) (q : Nat) :
     survivor, delete member `k` → `[9,{}]`, read back from the edited tape. -/
 example : SJ.EditHistory.ValidSeqDA SJ.EditHistory.exPJ.strings.size SJ.EditHistory.exPJ.tape.size SJ.EditHistory.exDoc SJ.EditHistory.exDOps :=
   SJ.EditHistory.exValidDA
+
+open SJ.GoSem SJ.GoIter SJ.GoSet in
+/-- **The readers that skip gaps, and the writer that makes them, are the meaning of their Go source**: `Advance`,
+    `AdvanceInto`, `AdvanceIter`, `PeekNextTag` (whose NOP-skipping loops `C14_gap_skipped` is about) and `SetNull` (whose
+    container case writes the gap) — see `C02_cursor_follows_source` and `C13_set_follows_source` for the statements in full. -/
+theorem C14_gap_code_follows_source (pj : PJ) (i dst : Iter) (hl : i.lim ≤ pj.tape.size) (fuel : Nat) (hf : fuelFor i ≤ fuel) :
+    SimV pj.tape i (runFun goFuns goIter_PeekNextTag fuel { env := envOf "i" i, tape := pj.tape }) (i.peekNextTag pj) ∧
+    SimT pj.tape (runFun goFuns goIter_Advance fuel { env := envOf "i" i, tape := pj.tape }) (i.advance pj) ∧
+    SimT pj.tape (runFun goFuns goIter_AdvanceInto fuel { env := envOf "i" i, tape := pj.tape }) (i.advanceInto pj) ∧
+    SimIter pj.tape (runFun goFuns goIter_AdvanceIter fuel
+      { env := envOf "i" i ++ envOf "dst" dst ++ [("i!=dst", .bool true)], tape := pj.tape }) (i.advanceIter pj dst) ∧
+    ((i.t = tagObjectStart ∨ i.t = tagArrayStart ∨ i.t = tagRoot → i.cur.toNat < 2^63) →
+      i.cur.toNat - i.off + 2 ≤ fuel → SimSet pj i (runFun goFuns goIter_SetNull fuel
+        { env := envOf "i" i ++ [("Strings.B", .bytes pj.strings)], tape := pj.tape })
+      (i.setNull pj)) := by
+  obtain ⟨h1, _, h3, h4, h5⟩ := go_iter_source_tie pj i dst hl fuel hf
+  exact ⟨h1, h3, h4, h5, (go_set_source_tie pj i hl fuel).2.2.2.2.2⟩
 
 end SJ.Properties.C14
